@@ -110,7 +110,6 @@ func c14Atoi(s string) int {
 	return n
 }
 
-var c14Counter int
 
 func init() {
 	// gff_roundtrip name version rstart rend locusName accession locusSeqLen seq nfeat
@@ -151,8 +150,7 @@ func init() {
 		other.AddFeature(&of)
 		_ = gff.Build(other)
 		parsed := c14Parse(text)
-		c14Counter++
-		path := filepath.Join(c14TmpDir(), fmt.Sprintf("c14-%d-%d.gff", os.Getpid(), c14Counter))
+		path := filepath.Join(c14TmpDir(), fmt.Sprintf("c14-%d-%d.gff", os.Getpid(), runner.Unique()))
 		gff.Write(s, path)
 		onDisk, _ := os.ReadFile(path)
 		viaFile := c14Read(path)
@@ -168,8 +166,7 @@ func init() {
 	// gff_parse text  → Parse(text) as status+fields, then rw-same/rw-diff for Read of the same text from a file
 	runner.Register("gff_parse", func(a []string) ([]string, error) {
 		parsed := c14Parse([]byte(a[0]))
-		c14Counter++
-		path := filepath.Join(c14TmpDir(), fmt.Sprintf("c14-%d-%d.gff", os.Getpid(), c14Counter))
+		path := filepath.Join(c14TmpDir(), fmt.Sprintf("c14-%d-%d.gff", os.Getpid(), runner.Unique()))
 		if err := os.WriteFile(path, []byte(a[0]), 0o644); err != nil {
 			return nil, err
 		}
